@@ -381,6 +381,12 @@ def flat(nodes, depth=0, parent=None):
 
 def cmp_outline(exp, act, parent_kind, out, file):
     key = lambda n: (n["kind"], n["range"][0], n["range"][1])
+    for n in exp:
+        if n.get("within"):      # any range inside the expected token counts
+            for m in act:
+                if m["kind"] == n["kind"] and n["range"][0] <= m["range"][0] and m["range"][1] <= n["range"][1]:
+                    n["range"] = list(m["range"])
+                    break
     ek = [key(n) for n in exp]
     ak = [key(n) for n in act]
     eset, aset = set(ek), set(ak)
@@ -392,6 +398,8 @@ def cmp_outline(exp, act, parent_kind, out, file):
             if n["kind"] == "Field" and any(x.get("optional") and x["name"] == n["name"] and key(x) in aset for x in exp):
                 construct = "field-declared-and-let-in-the-same-body"
                 relisted = True
+            if n.get("cause"):
+                construct = n["cause"]
             out.append(disc("C18", "outline: symbol missing", construct,
                             dict(file=file, want=dict(kind=n["kind"], name=n["name"], range=n["range"]))))
     for n in act:
@@ -426,8 +434,11 @@ def check_c18(p, a):
         if is_panic(act):
             out.append(disc("C18", "panic", "document_symbol", dict(file=f, panic=act)))
         elif act is None:
-            if p.outline[f]:
-                out.append(disc("C18", "outline: no answer for a file with symbols", "file", dict(file=f)))
+            req = [n for n in p.outline[f] if not n.get("optional")]
+            if req:
+                causes = {n.get("cause") for n in req}
+                out.append(disc("C18", "outline: no answer for a file with symbols",
+                                causes.pop() if len(causes) == 1 and None not in causes else "file", dict(file=f)))
         else:
             where = {(d["loc"][0], d["loc"][1]): d["where"] for d in p.decls}
             for n, _, _ in flat(p.outline[f]):
@@ -499,7 +510,8 @@ def check_c19(p, a, informational=True):
             out.append(disc("C19", "hover: nothing shown for a resolved identifier", d.kind, dict(at=k)))
             continue
         want = d.signature()
-        if hv["signature"] != want:
+        # (a single selected bit `v{0}` is bits<1> for TableGen and a bit for the server; the two convert into each other)
+        if hv["signature"].replace("bits<1>", "bit") != want.replace("bits<1>", "bit"):
             ok = bool(d.info.get("type_any")) and hv["signature"].endswith(" " + d.name)
             if d.kind == "field" and d.owner.info.get("unchecked"):
                 # `def NAME#_y` in a multiclass: what the owner is called is implementation defined
@@ -648,6 +660,15 @@ CAUSES = {
 }
 
 
+CAUSES.update({
+    "def-with-string-name": "a def / defm whose name is not a plain identifier (`def \"q\" : A<v> {..}`, `def !strconcat(..) : ..`, `defm \"\" : M<v>;`) is skipped "
+                            "by the indexer: parents, arguments and body are not indexed (no goto / references / hints inside, declarations inside unknown), the "
+                            "record is not listed in the outline, and faults inside are not reported",
+    "typed-empty-list": "the element type written after a list literal (`[]<T>`, `[a, b]<T>`) is ignored: T is not resolved, `[]<T>` is list<any>, so the variables of "
+                        "!foreach / !filter / !foldl over it have type any and `x.f` is 'cannot access field'",
+})
+
+
 def _types_in(msg):
     """The two types a type-mismatch message talks about (None if it is not one)."""
     for rx in (r"of type '([^']+)' is incompatible with type '([^']+)'", r"is type of ([^;]+); expected type (.+)$",
@@ -728,6 +749,8 @@ KNOWN = {
     "C13|false-diagnostic|forward_class": "a class declared first (`class B;`) and defined later is two class symbols: a value of the defined B "
                                           "given to a field typed B before the definition is reported as incompatible",
     "C13|false-diagnostic|defm_record_use": "a record created by a defm (`dm_x`) is unknown to the indexer: 'symbol not found' on a well-formed program",
+    "C13|false-diagnostic|foreach_record_use": "a record created by `foreach i = 0...3 in def R#i : ...;` (`R0`) is unknown to the indexer (it knows one def `R`): "
+                                               "'symbol not found' on a well-formed program (same family as defm_record_use)",
     "C05|goto|let-override-target": "D06 go-to-definition of a field use lands on a `let` override identifier",
     "C05|references-missing|let-override-target": "D06 such a use is missing from find-references of the declaring identifier",
     "C13|missed-fault|let-in-unknown-field": "D12 `let nosuch = v in ...` is not reported",
